@@ -611,6 +611,7 @@ def run_property(pid, tier, flags, only, scratch, t0, seed, evidence_path):
                          groups=[dict(name=r['name'], bound=r.get('bound')) for r in results if r['cls'] == 'bounded']),
             canaries=dict(total=len(canaries), reachable=len([o for o in canaries if o['status'] == 'FAILURE'])),
             static_facts=static_facts,
+            spec_assumes=scan_assumes(specdir, [g for g in expanded]),
             known_findings=[dict(id=k['id'], obligation=o['key']) for k, o in known_hits],
             undecided=undecided,
             samples=samples,
@@ -713,6 +714,23 @@ def replay_file(path):
         return 1 if ok else 0
     finally:
         shutil.rmtree(scratch, ignore_errors=True)
+
+
+def scan_assumes(specdir, groups):
+    """mechanical scan: every VASSUME / __CPROVER_assume in the specification files this run used (the environment = rely, the harness
+    preconditions, capacity bounds).  They are assumptions, not proof; the count is reported so that a new one cannot slip in unnoticed."""
+    out = {}
+    files = set()
+    for g in groups:
+        files.add(os.path.normpath(os.path.join(g.get('_specdir', specdir), g['tu'])))
+    for f in sorted(files):
+        try:
+            txt = open(f).read()
+        except OSError:
+            continue
+        out[os.path.relpath(f, VERIF)] = dict(VASSUME=len(re.findall(r'\bVASSUME\s*\(', txt)), cprover_assume=len(re.findall(r'__CPROVER_assume\s*\(', txt)))
+    return dict(files=out, total=sum(v['VASSUME'] + v['cprover_assume'] for v in out.values()),
+                note='assumptions made by the specification (environment/rely models, harness preconditions, capacity bounds); listed, not proved')
 
 
 def undecided_blocks(undecided):
